@@ -164,12 +164,15 @@ func (e *Engine) scanTypes() {
 				visit(u.Field(i).Type())
 			}
 		case *types.Array:
-			e.arrayElem[types.TypeString(u.Elem(), nil)] = true
-			markByValue(u.Elem())
+			if u.Len() > 0 { // a zero-length array has no cells: no slice element can live in it
+				e.arrayElem[types.TypeString(u.Elem(), nil)] = true
+				markByValue(u.Elem())
+			}
 			visit(u.Elem())
 		case *types.Pointer:
 			visit(u.Elem())
 		case *types.Slice:
+			markByValue(u.Elem()) // &s[i] points into the slice's backing object
 			visit(u.Elem())
 		case *types.Chan:
 			visit(u.Elem())
